@@ -110,6 +110,8 @@ def gen_case(seed, tier):
                 wrap.append([kind_w, cfg.choice(doms)["name"], nctl])
                 nctl += 1
     config = {"shape": shape, "depth": depth, "init": init, "domains": doms, "wports": wports, "rports": rports, "wrap": wrap}
+    # an inserter's control wider than one bit: asserted when non-zero, for the memory's ports as for any register
+    config["ctl_wide"] = ctl_wide = [k for k in range(nctl) if cfg.random() < 0.25]
 
     aw = max(0, (depth - 1).bit_length()) if depth > 0 else 0
     nsteps = cfg.randint(20, 160) if tier == "quick" else cfg.randint(20, 800)
@@ -163,6 +165,8 @@ def gen_case(seed, tier):
                 v = wl.randrange(1 << width)
             elif name.startswith("ctl"):
                 v = int(wl.random() < 0.7)
+                if v and int(name[3:]) in ctl_wide:
+                    v = wl.choice([1, 2, 3, 2])
             elif name[0] == "w":
                 ew = en_width(wp)
                 v = wl.choice([0, (1 << ew) - 1, wl.randrange(1 << ew), (1 << ew) - 1])
@@ -268,7 +272,7 @@ def build_dut(config):
         if w[0] == "rename":
             dut = DomainRenamer(dict(w[1]))(dut)
         else:
-            c = ctls.setdefault(w[2], Signal(name="ctl%d" % w[2]))
+            c = ctls.setdefault(w[2], Signal(2 if w[2] in config.get("ctl_wide", []) else 1, name="ctl%d" % w[2]))
             dut = (EnableInserter if w[0] == "enable" else ResetInserter)({w[1]: c})(dut)
     return dut, mem, wps, rps, ctls
 
